@@ -22,7 +22,7 @@ def untag(b):
 
 
 def make_base(workdir, flavour, tree):
-    """A committed working tree holding `tree` = {tid: {"path": [names], "kind": kind}}; file content = tag("old", tid)."""
+    """A committed working tree holding `tree` = {tid: {"path": [names], "kind": kind[, "x": executable]}}; file content = tag("old", tid)."""
     from breezy import controldir
     p = os.path.join(workdir, "base_" + flavour)
     wt = controldir.ControlDir.create_standalone_workingtree(
@@ -35,6 +35,8 @@ def make_base(workdir, flavour, tree):
         else:
             with open(os.path.join(p, rel), "wb") as f:
                 f.write(tag("old", t))
+            if e.get("x"):
+                os.chmod(os.path.join(p, rel), 0o755)
         paths.append(rel)
     wt.add(paths)
     wt.commit("base")
@@ -104,10 +106,14 @@ class Inject:
     Call sites (breezy/transform.py): _FileMover.rename -> os.rename; _FileMover.apply_deletions -> delete_any (the
     name imported into breezy.transform; implemented in Rust); DiskTreeTransform.finalize -> osutils.delete_any.
     os.unlink / os.rmdir / os.mkdir / os.symlink are counted too should apply() start using them.  Calls made by
-    _FileMover.rollback are not counted (single-fault model)."""
+    _FileMover.rollback are not counted (single-fault model).  The metadata update (tree.apply_inventory_delta /
+    tree._apply_index_changes) is one more fault point, outside the numbering."""
 
-    def __init__(self, k, root):
+    def __init__(self, k, root, tree=None, meta_method=None, meta_fault=False):
+        """tree / meta_method: the working tree object the transform updates and the name of its metadata-update method
+        (apply_inventory_delta / _apply_index_changes): the call is logged (not counted) and raises when meta_fault."""
         self.k, self.root, self.n, self.log, self.fault = k, root, 0, [], None
+        self.tree, self.meta_method, self.meta_fault = tree, meta_method, meta_fault
         self.in_rollback = False
         self.rolled_back = False
 
@@ -154,11 +160,23 @@ class Inject:
             finally:
                 inj.in_rollback = False
         bt._FileMover.rollback = rollback
+        if self.tree is not None:
+            orig_meta = getattr(self.tree, self.meta_method)
+
+            def meta(*a, **kw):
+                inj.log.append(("metadata-update",))
+                if inj.meta_fault:
+                    inj.fault = ("metadata", "metadata-update")
+                    raise OSError(5, "injected fault")
+                return orig_meta(*a, **kw)
+            setattr(self.tree, self.meta_method, meta)        # instance attribute, shadows the method
         return self
 
     def __exit__(self, *a):
         for mod, name, fn in self._saved:
             setattr(mod, name, fn)
+        if self.tree is not None:
+            delattr(self.tree, self.meta_method)
 
 
 def judge(ctx, module, rows, cfg_text, chunk=4000, label=None):
